@@ -1405,21 +1405,32 @@ impl<'a> Parser<'a> {
         for enclosing in (0..self.compilers.len() - 1).rev() {
             let current = enclosing + 1;
             // Try and resolve the local in the enclosing compiler's scope.
-            if let Ok(index) = self.compilers[enclosing].resolve_local(name) {
-                // If we found it, mark as captured and propagate the upvalue to the compilers that
-                // are enclosed by the current one.
-                self.compilers[enclosing].locals[index as usize].is_captured = true;
-                let mut index = index;
-                for compiler in current..self.compilers.len() {
-                    index = match self.compilers[compiler].add_upvalue(index, compiler == current) {
-                        Ok(index) => index,
-                        Err(error) => {
-                            self.compiler_error(error);
-                            return None;
-                        }
-                    };
+            match self.compilers[enclosing].resolve_local(name) {
+                Ok(index) => {
+                    // If we found it, mark as captured and propagate the upvalue to the compilers
+                    // that are enclosed by the current one.
+                    self.compilers[enclosing].locals[index as usize].is_captured = true;
+                    let mut index = index;
+                    for compiler in current..self.compilers.len() {
+                        index =
+                            match self.compilers[compiler].add_upvalue(index, compiler == current) {
+                                Ok(index) => index,
+                                Err(error) => {
+                                    self.compiler_error(error);
+                                    return None;
+                                }
+                            };
+                    }
+                    return Some(index);
                 }
-                return Some(index);
+                Err(CompilerError::ReadVarInInitialiser) => {
+                    // The name is that of a local of an enclosing function whose initialiser we
+                    // are still inside: as for a direct read, this is an error rather than a
+                    // reference to some outer variable of the same name.
+                    self.compiler_error(CompilerError::ReadVarInInitialiser);
+                    return None;
+                }
+                Err(_) => {}
             }
         }
         None
